@@ -88,8 +88,17 @@ pub fn for_each_case(
     let mut r = Rng::derive(seed, 0xB0, shard);
     let corp = corpus::all_yaml();
     for _ in 0..per {
-        let k = r.below(124);
-        if k >= 100 {
+        let k = r.below(134);
+        if k >= 124 {
+            // a model-rendered stream damaged by one of the C06 operators: ill-formed by construction,
+            // i.e. a rich source of inputs for the error paths
+            let rd = crate::mon_c::gen_stream(&mut r, true, true);
+            let op = r.below(crate::mon_c::OPERATORS.len());
+            match crate::mon_c::damage(&rd, op, &mut r) {
+                Some((bad, _)) => step(&bad, "rendered-damaged", stats, &mut n),
+                None => step(&rd.text, "rendered", stats, &mut n),
+            }
+        } else if k >= 100 {
             // model-rendered streams (valid by construction), their mutants, and block-scalar documents
             if k < 110 {
                 let rd = crate::mon_c::gen_stream(&mut r, true, true);
